@@ -41,7 +41,8 @@ def get_adc_times(sequence):
     times = []
     sequence = flatten_sequence(sequence)
     for op in sequence:
-        tim = tim + op.duration
+        # durations are aligned from the first axis, like the operator shapes
+        tim = np.add(*common.expand_arrays(tim, op.duration, append=True))
         if isinstance(op, operators.Probe):
             times.append(tim)
     return times
@@ -212,7 +213,8 @@ def simulate_simple(sm, sequence, probes=None, callback=None, disp=False):
     for op in sequence:
         # apply each operator in sequence
         sm = op(sm, inplace=True)
-        tic = tic + op.duration
+        # durations are aligned from the first axis, like the operator shapes
+        tic = np.add(*common.expand_arrays(tic, op.duration, append=True))
         if isinstance(op, Probe):
             # substitute probing operator and store (None is replaced with op)
             values.append(
